@@ -102,6 +102,13 @@ theorem step_erase (k : List K) (s : State) :
       | subsh b => rfl
       | andor l a r => rfl
       | neg c => rfl
+      | async c =>
+        simp only [step]
+        have hx : controlsJobs k0 s.erase = controlsJobs k0 s := rfl
+        rw [hx]
+        by_cases hc : controlsJobs k0 s = true
+        · simp only [hc, if_true]; rfl
+        · simp only [hc]; rfl
       | redir rs c =>
         simp only [step]
         rw [performIn_comm State.erase (fun _ => rfl) (fun _ _ => rfl)]
